@@ -32,11 +32,13 @@ pub fn any_a64(start: u64) -> A64 {
 
 pub struct Fetch {
     pub found: bool,
+    /// the region's page is currently not executable
+    pub noexec: bool,
     pub bytes: [u8; sim::RLEN],
     pub dirty: [bool; sim::RLEN],
 }
 fn fetch(pc: u64) -> Fetch {
-    let mut f = Fetch { found: false, bytes: [0; sim::RLEN], dirty: [false; sim::RLEN] };
+    let mut f = Fetch { found: false, noexec: false, bytes: [0; sim::RLEN], dirty: [false; sim::RLEN] };
     unsafe {
         let mut i = 0;
         while i < sim::S.NE_ACT {
@@ -44,6 +46,7 @@ fn fetch(pc: u64) -> Fetch {
                 f.found = true;
                 f.bytes = sim::ENT[i].bytes;
                 f.dirty = sim::ENT[i].dirty;
+                f.noexec = sim::ENT[i].noexec;
             }
             i += 1;
         }
@@ -53,6 +56,7 @@ fn fetch(pc: u64) -> Fetch {
                 f.found = true;
                 f.bytes = sim::JIT[j].bytes;
                 f.dirty = sim::JIT[j].dirty;
+                f.noexec = sim::JIT[j].noexec;
             }
             j += 1;
         }
@@ -186,6 +190,10 @@ pub fn run(c: &mut A64, max: usize) {
             if inside_some_region(c.pc) {
                 c.bad = true;
             }
+            return;
+        }
+        if f.noexec {
+            c.bad = true;
             return;
         }
         let base = c.pc;
